@@ -206,11 +206,13 @@ def impl_labels(impl):
 
 def _worker(docs):
     res, _tabs = parsemodel.model_parse_many(docs)
+    res_repl, _tabs2 = parsemodel.model_parse_many(docs, fn='parse_repl')
     out = []
-    for d, r in zip(docs, res):
+    for d, r, rr in zip(docs, res, res_repl):
         i = parsemodel.impl_parse(d)
         m = parsemodel.canon_model(r)
         part = check_partition(d, i)
+        mr = parsemodel.canon_model(rr)
         if part is None and i[0] == Sym('parsed'):
             # the parser's other mode (every statement a part of its own, as an interactive session would run them) must
             # partition the docstring just the same (no model of that mode: the predicate alone)
@@ -218,6 +220,8 @@ def _worker(docs):
             pr = check_partition(d, ir) if ir[0] == Sym('parsed') else 'simulate_repl=True: %s' % common.sx_enc(ir)[:120]
             if pr is not None:
                 part = 'with simulate_repl=True: ' + pr
+            elif common.sx_enc(ir) != common.sx_enc(mr):
+                part = 'with simulate_repl=True the parts differ from the model: impl %s model %s' % (common.sx_enc(ir)[:400], common.sx_enc(mr)[:400])
         out.append((common.sx_enc(i) == common.sx_enc(m), i, m, part))
     return out
 
